@@ -54,6 +54,16 @@ func isWrite(k model.Kind) bool {
 	return true
 }
 
+// mayModify: the call may physically change the container (cache reads lazily
+// delete an expired entry), which is what "a modification in flight" means for Size/Count.
+func mayModify(k model.Kind) bool {
+	switch k {
+	case model.CGet, model.CGetExp, model.CGetTTL:
+		return true
+	}
+	return isWrite(k)
+}
+
 func isGlobal(k model.Kind) bool {
 	switch k {
 	case model.MClear, model.CClear, model.MRange, model.CRange, model.CItems, model.CDeleteExpired, model.MSize, model.CCount:
@@ -438,7 +448,7 @@ func buildHistory(p *Program, recs []Rec) ([]lin.Ev, string) {
 			if r.Thread >= 0 {
 				for j := range recs {
 					c := &recs[j]
-					if c.Thread >= 0 && c.Thread != r.Thread && isWrite(c.Op.K) && overlap(c, r) {
+					if c.Thread >= 0 && c.Thread != r.Thread && mayModify(c.Op.K) && overlap(c, r) {
 						racy = true
 						break
 					}
@@ -450,7 +460,7 @@ func buildHistory(p *Program, recs []Rec) ([]lin.Ev, string) {
 				w := 0
 				for j := range recs {
 					c := &recs[j]
-					if c.Thread >= 0 && c.Thread != r.Thread && isWrite(c.Op.K) && overlap(c, r) {
+					if c.Thread >= 0 && c.Thread != r.Thread && mayModify(c.Op.K) && overlap(c, r) {
 						w++
 					}
 				}
